@@ -172,7 +172,7 @@ pub fn run(tier: Tier) -> i32 {
     for f in three_man_families() {
         bases.extend((0..f.size()).step_by((stride * 23) as usize).filter_map(|i| f.get(i)));
     }
-    let cf = CastleFamily { extras: 1, opp_rights: true };
+    let cf = CastleFamily { extras: 1, opp_rights: true, opp_to_move: false };
     bases.extend((0..cf.size()).step_by(stride as usize).filter_map(|i| cf.get(i)));
     sibling_sweep(&run, &bases);
     run.note("sibling_bases", json!(bases.len()));
